@@ -48,7 +48,15 @@ def make_seq_file(ck, rng, kind=None, equal=False, n=None):
 
 
 def gen_job(ck, rng):
-    k = rng.choice(["arr", "arr_equal", "rrwf", "rrwf", "rrwf_multi", "cmp", "rejected", "churn", "reread", "big_threads"])
+    k = rng.choice(["arr", "arr_equal", "rrwf", "rrwf", "rrwf_multi", "cmp", "rejected", "churn", "reread", "big_threads", "failed_read", "one_record"])
+    if k == "failed_read":
+        g = ck.tmp(".txt")
+        common.write_bytes(g, rng.choice(["hello world\nthis is not an alignment\n", "", "\n\n\n", "CLUSTAL W multiple sequence alignment\n\n"]))
+        return Job(k, ["read {S} %s" % os.path.join(ck.scratch, "does_not_exist_%d" % rng.randint(0, 10 ** 6)), "read {S} %s" % g, "run {S} 2 5 -1 -1 -1", "free {S}"], [], {})
+    if k == "one_record":
+        fa = ck.tmp(".fa")
+        common.write_bytes(fa, ">only\nACGTACGTAC\n")
+        return Job(k, ["read {S} %s" % fa, "run {S} 1 5 -1 -1 -1", "free {S}"], [], {})
     if k in ("arr", "arr_equal"):
         kind, seqs = make_seq_file(ck, rng, equal=(k == "arr_equal"))
         f = ck.tmp(".seqs")
@@ -227,7 +235,7 @@ def run(ck, tier):
             jobs.append((rel, i, {"MALLOC_PERTURB_": str([0, 85, 170, 255][i % 4])}))
     common.pmap(lambda j: run_history(ck, j[0], j[1], j[2], tier), jobs, workers=8)
     ck.rule = ("histories of 5..25 (thorough: ..60) jobs executed by one process with up to three msa-owning jobs interleaved operation by operation: kalign() on arrays (incl. "
-               "equal-length sequences), read(1-2 files)->run->dump->write(fmt)->free, write->free->re-read, compare of two runs, rejected calls (type of the other kind), "
+               "equal-length sequences), read(1-2 files)->run->dump->write(fmt)->free, write->free->re-read, compare of two runs, rejected calls (type of the other kind, missing / unrecognisable / one-record input), "
                ">= 100 sequences with 8-16 threads, heap-churn jobs that leave patterned garbage in freed blocks; thread counts 64 -> 1 -> 8 and DNA <-> protein change from job to "
                "job; -O2 build with allocation accounting and MALLOC_PERTURB_ in {0,85,170,255} and the ASan build. Each job is replayed alone in a fresh process; digests must "
                "be equal; live blocks after the last free must be 0. Distinct = (history, job).")
